@@ -517,6 +517,14 @@ static void mode_macro(const Case &c) {
 }
 
 // compile with KF1 abandonment + rewrite counting; returns false if abandoned
+static void maybe_disassemble(const Case &c, CodegenResult &cr) {
+  // OPT disasm 1: call the public, supposedly read-only Program::disassemble() before the program is inspected / run
+  if (c.opt("disasm", 0) && cr.generated_correctly) {
+    std::ostringstream sink;
+    cr.code.disassemble(sink);
+  }
+}
+
 static bool guarded_compile(const Case &c, CodegenResult &cr, long &rewrites) {
   double abandon = (double)c.opt("abandon", 0);
   double t0 = thread_cpu();
@@ -531,6 +539,7 @@ static bool guarded_compile(const Case &c, CodegenResult &cr, long &rewrites) {
   } catch (const Abandon &) {
     return false;
   }
+  maybe_disassemble(c, cr);
   return true;
 }
 
@@ -878,6 +887,27 @@ static void mode_run(const Case &c) {
       OUT += ',';
       jkey("digest");
       jstr(std::to_string(dg));
+      // the same program through the real execute() (its own loop) on a fresh machine: same final state?
+      if (done && c.opt("via_execute", 1)) {
+        VM v2(cr.code);
+        v2.execute();
+        unsigned long long d2 = fnv(vdigest(v2), sdigest(v2));
+        VM v3(cr.code);
+        long n3 = 0;
+        while (!v3.isDone() && n3 <= steps) {
+          v3.executeSingle();
+          n3++;
+        }
+        unsigned long long d3 = fnv(vdigest(v3), sdigest(v3));
+        OUT += ',';
+        jkey("execute_agrees");
+        OUT += (d2 == d3 && v2.isDone()) ? "true" : "false";
+        if (d2 != d3) {
+          OUT += ',';
+          jkey("execute_acts");
+          dump_acts(v2);
+        }
+      }
       // the end is absorbing (C17): further execute / executeSingle calls change nothing
       if (done && c.opt("absorb", 0)) {
         unsigned long long a0 = fnv(sdigest(vm), vm.verifInstructionPointer());
